@@ -184,6 +184,26 @@ CLAIMED = {
              "under ASan; every step (all variables' bytes, lengths, results, external buffers) validated by TLC against ByteStrings.",
         ref="5/C06", technique="TLA+ refinement model checking (TLC) + state-graph replay + TLC trace validation",
         note="Strings <= 48 bytes; Layer 2 for 2-3 variables with <= 2 bytes; raw-pointer aliasing into the String itself, empty needle for find(str,start), NUL separators excluded."),
+    "C04": dict(
+        text="Lifetime.tla states the ghost property over the element registry (every instance constructed once and destroyed "
+             "once, never touched afterwards; live instances = exactly those the containers hold; nothing live after all "
+             "containers are destroyed; copies get fresh instances with equal values; self-forms behave as if the argument had been "
+             "copied first; only Array may relocate). TLC checks a constructive reference model (LifetimeModel, 10 seeded-bug "
+             "configurations must each be rejected) and every edge of the Layer-1 graphs (which contain every self-argument form) "
+             "and of the Layer-2 graphs of C01-C03 (AvlImpl, HashChainsImpl, ArrayImpl) plus random histories with self-arguments, "
+             "copy/assign followed by mutation, clear and destruction are executed on all eight container types with Tracked "
+             "elements under ASan/LSan/UBSan; every step is validated by TLC against the functional spec with strict identities and "
+             "against Lifetime (registry balance, freshness, quiescence).",
+        ref="5/C04", technique="TLA+ model checking (TLC) + state-graph replay + TLC trace validation of registry observations; ASan/LSan",
+        note="Per-step created/destroyed sets are judged arithmetically plus serial freshness (driver temporaries enter the counters); leaks are attributed to the last execution of a batch."),
+    "C05": dict(
+        text="Stability.tla states address and iterator stability over the same observations: while an instance lives its address id "
+             "never changes, iterators kept since insertion still designate the same instance, swap exchanges holders without "
+             "changing an address, PoolList / PoolMap never copy (copy counter unchanged). The Layer-1 and Layer-2 graphs of C01-C03 "
+             "(rotations, chain unlinks, list relinking) and random histories are executed on List, Map, MultiMap, HashMap, HashSet, "
+             "PoolList and PoolMap; every step is validated by TLC (Array excluded: it may relocate).",
+        ref="5/C05", technique="TLA+ model checking (TLC) + state-graph replay + TLC trace validation of address / iterator observations",
+        note="Addresses abstracted to first-seen ids per execution; List::sort is judged by instance (values move between nodes, nodes stay)."),
 }
 
 PENDING_REASON = "check being built (builder still working on the lifetime / address-stability trace specifications over the C01-C03 drivers);  of /verif (planned: see DESIGN.md section 5); not claimed until its machinery runs"
